@@ -67,6 +67,8 @@ type Profile struct {
 	DropNode      float64 // probability a service omits Query.node although it has entities
 	Directives    bool
 	Descriptions  bool
+	NodeLookalike float64 // probability of a root field shaped like node: lookup(id: ID!): Node
+	SpreadEnum    bool    // services declare different subsets of an enum's values (merge-only universes)
 }
 
 func DefaultProfile() Profile {
@@ -86,6 +88,8 @@ type Universe struct {
 	Subs     []*Field
 	DropNode []bool // per service
 	DirDefs  []string
+	DirSvc   [][]bool // DirSvc[d][s]: directive d is declared by service s
+	EnumSvc  map[string][][]string // EnumSvc[enum][s]: values service s declares (spread enums)
 	byName   map[string]*TypeDef
 }
 
@@ -405,7 +409,45 @@ func NewUniverse(r *rand.Rand, p Profile) *Universe {
 		u.DropNode[s] = r.Float64() < p.DropNode
 	}
 	if p.Directives {
-		u.DirDefs = []string{"directive @tag(name: String = \"x\") on FIELD | FIELD_DEFINITION | OBJECT"}
+		u.DirDefs = []string{
+			"directive @tag(name: String = \"x\") on FIELD | FIELD_DEFINITION | OBJECT",
+			"directive @trace(level: Int, on: Boolean = true) on QUERY | FIELD",
+		}
+		if r.Intn(4) == 0 {
+			u.DirDefs = append(u.DirDefs, "directive @again(n: Int) repeatable on FIELD")
+		}
+		u.DirSvc = make([][]bool, len(u.DirDefs))
+		for d := range u.DirDefs {
+			u.DirSvc[d] = make([]bool, u.K)
+			u.DirSvc[d][r.Intn(u.K)] = true
+			for s := 0; s < u.K; s++ {
+				if r.Intn(2) == 0 {
+					u.DirSvc[d][s] = true
+				}
+			}
+		}
+	}
+	if p.SpreadEnum && u.K > 1 {
+		u.EnumSvc = map[string][][]string{}
+		for _, t := range u.Types {
+			if t.Kind != KEnum {
+				continue
+			}
+			t.Values = append(t.Values, "EXTRA", "MORE")
+			per := make([][]string, u.K)
+			for i, v := range t.Values {
+				owner := r.Intn(u.K)
+				for sv := 0; sv < u.K; sv++ {
+					if sv == owner || r.Intn(2) == 0 || i == 0 {
+						per[sv] = append(per[sv], v)
+					}
+				}
+			}
+			u.EnumSvc[t.Name] = per
+		}
+	}
+	if p.NodeLookalike > 0 && len(ents) > 0 && r.Float64() < p.NodeLookalike {
+		u.Query = append(u.Query, &Field{Name: "lookup", Type: "Node", Args: []Arg{{Name: "id", Type: "ID!"}}, Owner: r.Intn(u.K)})
 	}
 	if p.Descriptions {
 		for _, t := range u.Types {
@@ -579,8 +621,10 @@ func (u *Universe) SDL(svc int) string {
 		}
 	}
 	var b strings.Builder
-	for _, d := range u.DirDefs {
-		b.WriteString(d + "\n")
+	for di, d := range u.DirDefs {
+		if svc < 0 || u.DirSvc[di][svc] {
+			b.WriteString(d + "\n")
+		}
 	}
 	if hasEntity {
 		b.WriteString("interface Node {\n  id: ID!\n}\n")
@@ -634,7 +678,11 @@ func (u *Universe) SDL(svc int) string {
 		case KUnion:
 			b.WriteString("union " + t.Name + " = " + strings.Join(t.Members, " | ") + "\n")
 		case KEnum:
-			b.WriteString("enum " + t.Name + " {\n  " + strings.Join(t.Values, "\n  ") + "\n}\n")
+			vals := t.Values
+			if svc >= 0 && u.EnumSvc != nil && u.EnumSvc[t.Name] != nil {
+				vals = u.EnumSvc[t.Name][svc]
+			}
+			b.WriteString("enum " + t.Name + " {\n  " + strings.Join(vals, "\n  ") + "\n}\n")
 		case KInput:
 			b.WriteString("input " + t.Name + " {\n")
 			for _, f := range t.Fields {
